@@ -338,7 +338,7 @@ def s_cbs_lifecycle(vc):
     g2 = run_automaton(vc, "order", g, out.trace)
     check_exit(vc, "exit", st, flow, g2, out.trace)
     size = len_(buf) if late else E
-    vc.ensure("abort_fires_exactly_one_error", Iff(And(size > 0, size > L), "HttpErrorHook" in kinds(out.trace)) if True else True)
+    vc.ensure("abort_fires_exactly_one_error", Iff(And(size > 0, size > L), "HttpErrorHook" in kinds(out.trace)))
     vc.ensure("at_most_one_error", kinds(out.trace).count("HttpErrorHook") <= 1)
 
 
@@ -871,9 +871,19 @@ def s_drain(vc):
     rh = ev(vc, "ResponseHeaders", response=mk_response(vc), end_stream=True)
     eom = ev(vc, "ResponseEndOfMessage")
     queue = [rh, eom, rpe] if order == "response_first" else [rpe, rh, eom]
+    st._paused_event_queue = vc.deque(queue)
     trace = []
-    for i, e in enumerate(queue):
-        st._paused_event_queue = vc.deque(queue[i + 1:])
+    # Layer.__continue: `while not self._paused and self._paused_event_queue: ev = popleft(); yield from _handle_event(ev)`
+    for i in range(len(queue)):
+        q = st._paused_event_queue
+        items = q.fields["_items"].items if vc.mode == "sym" else q
+        if len(items) == 0:
+            break                       # the stream emptied its own queue: nothing further is delivered
+        e = items[0]
+        if vc.mode == "sym":
+            del items[0]
+        else:
+            q.popleft()
         out = vc.call(HS + "._handle_event", st, e, on_yield=addon(vc, {}))
         vc.ensure(f"event{i}.no_exception", out.ok)
         if not out.ok:
